@@ -241,7 +241,6 @@ pub fn counting(r: &mut Runner) {
         }
     }
     let mut buf: Vec<u8> = Vec::new();
-    let nd = [b'\n'];
     let mut unit = 0u64;
     let lens: Vec<usize> = if r.tier == Tier::Miri {
         vec![0, 1, 15, 16, 17, 31, 32, 33, 63, 64, 65, 80, 127, 128, 129, 160, 257]
@@ -253,15 +252,21 @@ pub fn counting(r: &mut Runner) {
         if !r.mine(unit) {
             continue;
         }
+        // the needle value rotates with the length: newline, 0x00, 0x80,
+        // 0xFF, a letter
+        let nb = [b'\n', 0x00, 0x80, 0xFF, b'a'][len % 5];
+        let nd = [nb];
+        let miss1 = nb ^ 1;
+        let miss2 = nb ^ 0x80;
         // densities: none, all, one match at every position, alternating,
         // every third, random p in {1/64, 1/8, 1/2}, near-miss bytes only
         let mut pats: Vec<Vec<u8>> = Vec::new();
-        pats.push(vec![b'a'; len]);
-        pats.push(vec![b'\n'; len]);
-        pats.push((0..len).map(|i| if i % 2 == 0 { b'\n' } else { 0x0B }).collect());
-        pats.push((0..len).map(|i| if i % 3 == 1 { b'\n' } else { 0x8A }).collect());
+        pats.push(vec![miss2; len]);
+        pats.push(vec![nb; len]);
+        pats.push((0..len).map(|i| if i % 2 == 0 { nb } else { miss1 }).collect());
+        pats.push((0..len).map(|i| if i % 3 == 1 { nb } else { miss2 }).collect());
         for den in [64u64, 8, 2] {
-            pats.push((0..len).map(|_| if r.rng.below(den) == 0 { b'\n' } else { r.rng.byte() | 0x20 }).collect());
+            pats.push((0..len).map(|_| if r.rng.below(den) == 0 { nb } else { let b = r.rng.byte(); if b == nb { miss1 } else { b } }).collect());
         }
         let single: Vec<usize> = if r.tier == Tier::Miri { vec![0, len / 2, len.saturating_sub(1)] } else { (0..len).collect() };
         for (pk, pat) in pats.iter().enumerate() {
@@ -280,8 +285,8 @@ pub fn counting(r: &mut Runner) {
                 continue;
             }
             buf.clear();
-            buf.resize(len, 0x0B);
-            buf[p] = b'\n';
+            buf.resize(len, miss1);
+            buf[p] = nb;
             let place = places[(p + len) % places.len()];
             for &api in &apis {
                 r.run0(api, &buf, &nd, place, Place::Heap, true);
